@@ -10,7 +10,11 @@ RULE = ("hx-loop runs the real bench_loop_threaded (Bencher::with_inputs(..).ben
         "per-thread clock offsets); a second stream aims min_time/max_time at the elapsed time of some round +-1 tick so that "
         "the 'no time limit reached' premise is both met and not met. The harness prints per-thread call counts, the size of "
         "every round, recorded durations, final sample size, Stats.sample_count/iter_count and the timestamp log; the log "
-        "drives the extracted model; the extracted c03_sb is evaluated on the implementation's output. "
+        "drives the extracted model; the extracted c03_sb is evaluated on the implementation's output. End to end: a real "
+        "#[divan::bench] binary (hx-loop-e2e) is run through Divan::main with sample_count/sample_size/threads given on the command "
+        "line, in DIVAN_* variables or in bench/bench_group attributes (1-4 thread counts per benchmark, n < T, default n, test mode); the "
+        "samples and iters cells of every t=N row and the per-thread call counts logged by the benchmark body are compared with the model "
+        "run for each thread count, and the extracted c03_e2e_sb (T*ceil(n/T), that times s, s*ceil(n/T) calls per thread) is evaluated on them. "
         "Non-trivial = implementation and model agree on an `ok` line with at least one round; distinct by input line.")
 ASSUMPTIONS = [
     "the T raw samples of a round come back from ThreadPool::par_extend in thread order, index 0 = caller (C06's subject)",
@@ -54,8 +58,10 @@ def streams(tier, rng):
         if base["n"] == "-" or int(base["n"]) > 14:
             base["n"] = rng.randrange(1, 12)
         aimed.extend(L.aim_budget(rng, base, rng.choice(["max", "max", "min"])))
+    e2e = L.e2e_cases(rng, 70 if not big else 400)
     return [
         L.make_stream("c03-corpus", "c03", L.corpus("C03")),
+        L.e2e_stream("c03-e2e-table", e2e),
         L.make_stream("c03-counts", "c03", cases, hist=L.histogram(cases),
                       describe="(n, s, T, mode) x cost scripts, no time budget"),
         L.make_stream("c03-budget-premise", "c03", aimed, hist=L.histogram(aimed),
@@ -75,7 +81,9 @@ MANIFEST = {
     "note": "All theorems full strength, closed under the global context. Trusted: Coq kernel, extraction, OCaml driver, hooks H1-H3, "
             "hx-loop harness, the hand-written model as validated by the correspondence streams. Assumed, not proved here: the pool returns "
             "one raw sample per thread in thread order with index 0 = caller (C06), each raw sample is sample_size calls (C01); the ways of "
-            "setting the options are C15's subject; the printed samples/iters cells are not compared end to end (only Stats fields).",
+            "setting the options are C15's subject (the end-to-end stream only uses CLI, DIVAN_* and attribute settings with explicit sizes). "
+            "End to end: the samples/iters cells of every t=N row printed by the real runner and the per-thread call counts are compared with the "
+            "model and with c03_e2e_sb (C03_e2e_model).",
     "technique": "machine-checked proof in Coq (closed-form invariant of the loop state over the executed prefix, least-index argument) "
                  "+ history-driven differential correspondence against the real crate + extracted boolean specification on implementation outputs",
 }
